@@ -234,6 +234,14 @@ class Engine:
     def _check(self, *assumptions):
         t0 = time.time()
         r = self.solver.check(*assumptions)
+        if r == z3.unknown:
+            # a time-out may be caused by machine load: one retry with a six-fold budget before the query counts as undecided
+            self.solver.set('timeout', self.timeout_ms * 6)
+            try:
+                r = self.solver.check(*assumptions)
+            finally:
+                self.solver.set('timeout', self.timeout_ms)
+            self.stats.solver_retries = getattr(self.stats, 'solver_retries', 0) + 1
         self.stats.solver_s += time.time() - t0
         if r == z3.unknown:
             raise Unsupported('solver returned unknown (%s)' % self.solver.reason_unknown())
@@ -1103,7 +1111,7 @@ class Engine:
         raise Unsupported('operand ' + repr(op))
 
     _INTLIT = re.compile(r'(-?\d+)_(u8|u16|u32|u64|u128|usize|i8|i16|i32|i64|i128|isize)$')
-    _FLOATLIT = re.compile(r'(-?[\d.]+(?:[eE][-+]?\d+)?|[-+]?inf|NaN)(?:_)?f64$')
+    _FLOATLIT = re.compile(r'(-?[\d.]+(?:[eE][-+]?\d+)?|[-+]?inf|NaN)(?:_)?(f64|f32)$')
 
     def const(self, f, c):
         r = self._const_cache.get(c)
@@ -1137,7 +1145,11 @@ class Engine:
             return Ref(Cell(s))
         m = self._FLOATLIT.match(c)
         if m:
-            return Float(float(m.group(1)))
+            x = float(m.group(1))
+            if m.group(2) == 'f32':
+                import struct
+                x = struct.unpack('<f', struct.pack('<f', x))[0]
+            return Float(x)
         if c.startswith('ZeroSized: '):
             ty = c[len('ZeroSized: '):]
             if ty.startswith('{closure@'):
